@@ -147,7 +147,7 @@ def main() -> int:
     t = tier()
     sd = seed()
     if t == "quick":
-        cases = [("prog", i, sd, i % 8 == 0) for i in range(120)] + [("device", i, sd, i % 3 == 0) for i in range(90)] + [("strings", i, sd, i % 2 == 0) for i in range(60)]
+        cases = [("prog", i, sd, i % 8 == 0) for i in range(300)] + [("device", i, sd, i % 3 == 0) for i in range(180)] + [("strings", i, sd, i % 2 == 0) for i in range(120)]
     else:
         cases = [("prog", i, sd, i % 4 == 0) for i in range(3000)] + [("device", i, sd, i % 2 == 0) for i in range(2000)] + [("strings", i, sd, True) for i in range(1000)]
     for case, st, res in run_cases(run_case, cases):
